@@ -506,3 +506,27 @@ func Enumerate(t world.T, cs Case, maxPreempt int, fixed []int, after func(w *wo
 		prefix = append(append([]int{}, taken[:i]...), taken[i]+1)
 	}
 }
+
+// SchedErrReproduces re-runs the case twice with the recorded grant sequence: a scheduler error (tasks blocked for
+// good) that shows every time is a property of the code under test (a real deadlock); one that does not is the
+// machine being too busy for the watchdog - inconclusive, never a violation.
+func SchedErrReproduces(t world.T, cs Case, choices []int) bool {
+	for try := 0; try < 2; try++ {
+		k := 0
+		r := Run(t, cs, func(step int, enabled []*sched.Task, cur int) int {
+			c := 0
+			if k < len(choices) {
+				c = choices[k]
+			}
+			k++
+			if c >= len(enabled) {
+				c = 0
+			}
+			return c
+		}, nil)
+		if r.SchedErr == nil {
+			return false
+		}
+	}
+	return true
+}
